@@ -11,6 +11,16 @@ from .. import tlc
 from ..common import ROOT, MachineryError
 
 LEVEL = "model_checking"
+
+
+def _listfile(paths):
+    """argv cannot carry thousands of paths: write them to a file and pass @file"""
+    import tempfile
+    f = tempfile.NamedTemporaryFile("w", suffix=".json", delete=False, dir=__import__("os").path.dirname(paths[0]))
+    json.dump(paths, f)
+    f.close()
+    return "@" + f.name
+
 INV = ["TypeOK", "BytesEqual", "AnnounceOnce", "AnnouncedIsStored", "NoResurrection", "FetchExact", "NoFailure"]
 
 
@@ -42,7 +52,7 @@ warnings.filterwarnings("ignore"); logging.disable(logging.CRITICAL)
 from pathlib import Path
 from harness import tlc
 from harness.drive import transfer
-files, inst, out = json.loads(sys.argv[1]), json.loads(sys.argv[2]), sys.argv[3]
+files, inst, out = json.load(open(sys.argv[1][1:])) if sys.argv[1].startswith("@") else json.loads(sys.argv[1]), json.loads(sys.argv[2]), sys.argv[3]
 res = []
 for f in files:
     beh = tlc.parse_sim_file(Path(f))
@@ -93,7 +103,7 @@ def run(ctx):
         if not files:
             raise MachineryError("no behaviours from TLC simulation:\n" + rs.out[-2000:])
         rf = ctx.scratch / f"replay_{name}.json"
-        p = subprocess.run([sys.executable, "-W", "ignore", "-c", REPLAY, json.dumps([str(f) for f in files]), json.dumps(inst), str(rf)],
+        p = subprocess.run([sys.executable, "-W", "ignore", "-c", REPLAY, _listfile([str(f) for f in files]), json.dumps(inst), str(rf)],
                            cwd=ROOT, stdout=subprocess.PIPE, stderr=subprocess.STDOUT, text=True, timeout=1800)
         if p.returncode != 0 or not rf.exists():
             raise MachineryError("replay failed:\n" + p.stdout[-3000:])
